@@ -35,6 +35,9 @@ class NotEncodable(Exception):
     pass
 
 
+_NO_RETURN = object()
+
+
 @dataclass
 class Marker:
     name: str  # e.g. "datetime.datetime", "datetime.UTC"
@@ -152,6 +155,7 @@ class Interp:
         self.tree = ast.parse(source)
         self.funcs: dict[str, ast.FunctionDef] = {}
         self.globals: dict[str, Any] = {}
+        self.lazy_globals: dict[str, ast.AST] = {}
         self.trace: list[str] = []  # functions inlined
         for node in self.tree.body:
             if isinstance(node, ast.FunctionDef):
@@ -167,21 +171,51 @@ class Interp:
                   and isinstance(node.value, ast.Constant) and isinstance(node.value.value, (int, float, str))
                   and not isinstance(node.value.value, bool)):
                 self.globals[node.targets[0].id] = node.value.value   # module-level constant
+            elif (isinstance(node, ast.Assign) and len(node.targets) == 1 and isinstance(node.targets[0], ast.Name)
+                  and isinstance(node.value, (ast.Call, ast.BinOp, ast.Attribute))):
+                self.lazy_globals[node.targets[0].id] = node.value   # e.g. UNIX_EPOCH = datetime(1970, 1, 1)
             elif (isinstance(node, ast.AnnAssign) and isinstance(node.target, ast.Name) and isinstance(node.value, ast.Constant)
                   and isinstance(node.value.value, (int, float, str)) and not isinstance(node.value.value, bool)):
                 self.globals[node.target.id] = node.value.value
 
     # ------------------------------------------------------------------
-    def call(self, fname: str, args: list[Any]) -> Any:
+    def call(self, fname: str, args: list[Any], kwargs: Optional[dict[str, Any]] = None) -> Any:
         if fname not in self.funcs:
             raise NotEncodable(f"function {fname} not found in module")
         f = self.funcs[fname]
         self.trace.append(fname)
         params = [a.arg for a in f.args.args]
-        if len(params) != len(args):
+        if len(args) > len(params) or f.args.vararg or f.args.kwarg or f.args.kwonlyargs:
             raise NotEncodable(f"arity of {fname}")
         env = dict(zip(params, args))
-        for st in f.body:
+        for k, v in (kwargs or {}).items():
+            if k not in params or k in env:
+                raise NotEncodable(f"keyword {k} of {fname}")
+            env[k] = v
+        defaults = f.args.defaults
+        for p_, d in zip(params[len(params) - len(defaults):], defaults):
+            if p_ not in env:
+                env[p_] = self.ev(d, {})
+        if len(env) != len(params):
+            raise NotEncodable(f"arity of {fname}")
+        return self.run_body(f.body, env, fname)
+
+    def run_body(self, body: list[ast.stmt], env: dict[str, Any], fname: str) -> Any:
+        r = self.block(body, env, fname)
+        if r is _NO_RETURN:
+            raise NotEncodable(f"{fname} does not return")
+        return r
+
+    def block(self, body: list[ast.stmt], env: dict[str, Any], fname: str) -> Any:
+        for st in body:
+            if isinstance(st, ast.If):
+                cond = self.ev(st.test, env)
+                if not isinstance(cond, bool):
+                    raise NotEncodable("if on a symbolic condition")
+                r = self.block(st.body if cond else st.orelse, env, fname)
+                if r is not _NO_RETURN:
+                    return r
+                continue
             if isinstance(st, ast.Expr) and isinstance(st.value, ast.Constant):
                 continue  # docstring
             if isinstance(st, ast.Assign) and len(st.targets) == 1 and isinstance(st.targets[0], ast.Name):
@@ -199,18 +233,28 @@ class Interp:
                 return self.ev(st.value, env)
             else:
                 raise NotEncodable(f"statement {type(st).__name__} at line {st.lineno} of {fname}")
-        raise NotEncodable(f"{fname} does not return")
+        return _NO_RETURN
 
     # ------------------------------------------------------------------
     def ev(self, n: ast.AST, env: dict[str, Any]) -> Any:
         if isinstance(n, ast.Constant):
-            if isinstance(n.value, (int, float, str)) and not isinstance(n.value, bool):
+            if n.value is None or isinstance(n.value, (int, float, str, bool)):
                 return n.value
             raise NotEncodable(f"constant {n.value!r}")
+        if isinstance(n, ast.Compare) and len(n.ops) == 1 and isinstance(n.ops[0], (ast.Is, ast.IsNot)):
+            a, b = self.ev(n.left, env), self.ev(n.comparators[0], env)
+            if a is None or b is None:
+                same = a is None and b is None
+                return same if isinstance(n.ops[0], ast.Is) else not same
+            raise NotEncodable("identity comparison of non-None values")
         if isinstance(n, ast.Name):
             if n.id in env:
                 return env[n.id]
             if n.id in self.globals:
+                return self.globals[n.id]
+            if n.id in self.lazy_globals:
+                node = self.lazy_globals.pop(n.id)
+                self.globals[n.id] = self.ev(node, {})
                 return self.globals[n.id]
             if n.id in ("int", "round", "float", "divmod", "str"):
                 return Marker("builtin." + n.id)
@@ -314,6 +358,10 @@ class Interp:
             if a.aware != b.aware:
                 raise NotEncodable("aware - naive datetime (TypeError at run time)")
             return STimeDelta(self.int_binop(ast.Sub(), a.us, b.us))
+        if isinstance(a, SDateTime) and isinstance(b, STimeDelta) and isinstance(op, (ast.Add, ast.Sub)):
+            return SDateTime(self.int_binop(op, a.us, b.us), a.aware)
+        if isinstance(a, STimeDelta) and isinstance(b, SDateTime) and isinstance(op, ast.Add):
+            return SDateTime(self.int_binop(op, a.us, b.us), b.aware)
         if isinstance(a, STimeDelta) and isinstance(b, STimeDelta):
             if isinstance(op, ast.FloorDiv):
                 return self.int_binop(op, a.us, b.us)
@@ -433,9 +481,7 @@ class Interp:
         if isinstance(fn, Marker):
             nm = fn.name
             if nm.startswith("func."):
-                if kw:
-                    raise NotEncodable("keyword call of module function")
-                return self.call(nm[5:], args)
+                return self.call(nm[5:], args, kw)
             if nm == "builtin.int" and len(args) == 1:
                 v = args[0]
                 if isinstance(v, SInt): return v
@@ -487,14 +533,25 @@ class Interp:
                 unit = {"microseconds": 1, "milliseconds": 1000, "seconds": 10**6, "minutes": 60 * 10**6,
                         "hours": 3600 * 10**6, "days": 86400 * 10**6}
                 names = ["days", "seconds", "microseconds", "milliseconds", "minutes", "hours"]
-                tot = 0
+                tot: Any = 0
                 for i, a in enumerate(args):
                     kw[names[i]] = a
                 for k, v in kw.items():
-                    if k not in unit or not isinstance(v, int):
+                    if k not in unit:
                         raise NotEncodable("timedelta(...) argument")
-                    tot += unit[k] * v
-                return STimeDelta(SInt([(z3.BoolVal(True), z3.IntVal(tot), tot, tot)]))
+                    if isinstance(v, int):
+                        part: Any = unit[k] * v
+                    elif isinstance(v, SInt):
+                        part = self.int_binop(ast.Mult(), v, unit[k])
+                    elif isinstance(v, SFloat) and k == "seconds":
+                        # CPython accum(): modf, frac*1e6 in double, round-half-even - the same steps as fromtimestamp
+                        part = self.fromtimestamp(v)
+                    else:
+                        raise NotEncodable("timedelta(...) argument")
+                    tot = part if (isinstance(tot, int) and tot == 0) else self.int_binop(ast.Add(), tot, part)
+                if isinstance(tot, int):
+                    tot = SInt([(z3.BoolVal(True), z3.IntVal(tot), tot, tot)])
+                return STimeDelta(tot)
             raise NotEncodable(f"call of {nm}")
         if isinstance(fn, BoundMethod):
             o, nm = fn.obj, fn.name
@@ -502,6 +559,15 @@ class Interp:
                 if nm == "strftime" and len(args) == 1 and isinstance(args[0], str):
                     fields, z, iso = parse_strftime(args[0])
                     return SPVStr(o.us, fields, z, iso, args[0])
+                if nm == "replace" and set(kw) == {"microsecond"} and not args and isinstance(kw["microsecond"], (SInt, int)):
+                    mu = kw["microsecond"] if isinstance(kw["microsecond"], SInt) else SInt([(z3.BoolVal(True), z3.IntVal(kw["microsecond"]), kw["microsecond"], kw["microsecond"])])
+                    cases = []
+                    for g1, t1, lo1, hi1 in o.us.cases:
+                        for g2, f, _l, _h in mu.cases:
+                            ok = z3.And(f >= 0, f < 10**6)
+                            cases.append((z3.And(g1, g2, ok), (t1 / 10**6) * 10**6 + f, lo1 - 10**6, hi1 + 10**6))
+                            cases.append((z3.And(g1, g2, z3.Not(ok)), z3.IntVal(-1), -1, -1))   # ValueError at run time
+                    return SDateTime(SInt(cases), o.aware)
                 if nm == "replace" and set(kw) == {"tzinfo"} and not args:
                     tz = kw["tzinfo"]
                     if isinstance(tz, Marker) and tz.name == "datetime.UTC":
